@@ -14,6 +14,7 @@ cases (validity only).
 from __future__ import annotations
 
 from collections import Counter
+import copy
 from typing import Any
 from typing import Dict
 from typing import List
@@ -819,6 +820,26 @@ def _gen_random_case(rng) -> Tuple[Dict[str, Any], Any]:
             doc = {f"k{i}": (i if rng.random() < 0.6 else [i]) for i in range(1, m + 1)}
     elif shape < 0.85:
         doc = D.random_tree(rng, max_nodes=rng.choice((16, 24, 40)), max_depth=5, p_dict=0.5, max_width=3)
+    elif shape < 0.865:
+        # sibling containers that are Python-equal but not the same JSON value ([1] / [true] / [1.0],
+        # {"n": 0} / {"n": false}), next to ordinary ones: a filter tells them apart, whatever order
+        # they are tested in
+        base = rng.choice(([1], {"n": 0}, [0, "x"], {"a": 1, "b": [1]}, [[1]], {"n": 1.0}))
+
+        def alike(v: Any) -> Any:
+            if isinstance(v, list):
+                return [alike(x) for x in v]
+            if isinstance(v, dict):
+                return {k_: alike(x) for k_, x in v.items()}
+            if v == 1 and not isinstance(v, str):
+                return rng.choice((True, 1, 1.0))
+            if v == 0 and not isinstance(v, str):
+                return rng.choice((False, 0, 0.0))
+            return v
+
+        sibs = [copy.deepcopy(base), alike(base), alike(base), rng.choice(([2], {"n": 2}, "s"))][: rng.choice((3, 4))]
+        rng.shuffle(sibs)
+        doc = {k_: v for k_, v in zip(("a", "b", "c", "d"), sibs)} if rng.random() < 0.65 else sibs
     elif shape < 0.88:
         # MANY runs waiting at once (33..80 container children of the root), each child an array of
         # arrays of arrays: whatever an evaluator does differently "when the frontier is large"
@@ -854,11 +875,50 @@ def _gen_random_case(rng) -> Tuple[Dict[str, Any], Any]:
         max_segs=rng.choice((1, 2, 2, 3)),
     )
     r = rng.random()
-    if r < 0.25:
+    if 0.85 <= shape < 0.865:
+        q = rng.choice(_LOOKALIKE_QUERIES)
+    elif r < 0.25:
         q = CORPUS_QUERIES[rng.randrange(len(CORPUS_QUERIES))]
     else:
         q = Q.gen_query(rng, f, 0, 1)
+    if rng.random() < 0.12 and isinstance(doc, (list, dict)) and D.count_nodes(doc) < 60:
+        doc = _odd_names(rng, doc)
     return q, doc
+
+
+def _rel(*sels: Dict[str, Any]) -> Dict[str, Any]:
+    return {"t": "rel", "q": {"segs": [{"k": "child", "sels": [sel], "sh": sel["t"] == "name"} for sel in sels]}}
+
+
+def _flt(e: Dict[str, Any], desc: bool = False) -> Dict[str, Any]:
+    return {"segs": [{"k": "desc" if desc else "child", "sels": [{"t": "filter", "e": e}], "sh": False}]}
+
+
+def _cmp(left: Dict[str, Any], v: Any) -> Dict[str, Any]:
+    return {"t": "cmp", "op": "==", "l": left, "r": {"t": "lit", "v": v}}
+
+
+_I0 = {"t": "index", "v": 0}
+_LOOKALIKE_QUERIES = [
+    _flt(_cmp(_rel(_I0), 1)), _flt(_cmp(_rel({"t": "name", "v": "n"}), False)), _flt(_cmp(_rel({"t": "name", "v": "n"}), 0)), _flt(_cmp(_rel(_I0), True)),
+    _flt(_cmp(_rel(_I0, _I0), 1)), _flt(_cmp(_rel({"t": "name", "v": "n"}), 1.0)), _flt(_cmp(_rel({"t": "name", "v": "a"}), 1), desc=True), _flt(_cmp(_rel({"t": "name", "v": "b"}, _I0), True)),
+]
+
+
+def _odd_names(rng, v: Any) -> Any:
+    """The same document with some member names replaced by names that are falsy, blank or look like
+    something else ('' , '0', ' ', 'length') -- member names are data."""
+    if isinstance(v, list):
+        return [_odd_names(rng, x) for x in v]
+    if isinstance(v, dict):
+        out: Dict[str, Any] = {}
+        for k_, x in v.items():
+            nk = rng.choice(("", "", "0", " ", "length", "-1")) if rng.random() < 0.45 else k_
+            if nk in out:
+                nk = k_
+            out[nk] = _odd_names(rng, x)
+        return out
+    return v
 
 
 STEER_CASES = {"quick": 60, "thorough": 1200}
